@@ -195,10 +195,14 @@ def _iter_files_in_path(
         # Before adding new ignore specs, remove any which are no longer relevant
         # as indicated by us no longer being in a subdirectory of them.
         # NOTE: Slice so we can modify as we go.
+        # NOTE: Compare absolute paths. `dirname` is relative whenever the
+        # path we're walking was given as a relative path.
+        abs_dirname = os.path.abspath(dirname)
         for inner_dirname, inner_file, inner_spec in inner_ignore_specs[:]:
+            abs_inner_dirname = os.path.abspath(inner_dirname)
             if not (
-                dirname == inner_dirname
-                or dirname.startswith(os.path.abspath(inner_dirname) + os.sep)
+                abs_dirname == abs_inner_dirname
+                or abs_dirname.startswith(abs_inner_dirname + os.sep)
             ):
                 inner_ignore_specs.remove((inner_dirname, inner_file, inner_spec))
 
